@@ -3,82 +3,104 @@ import CollectionsC.Generated.Funcs
 /-! # C19 — translation validation of the ring-buffer model
 
 `Generated/Funcs.lean` is re-translated from the current text of `src/cc_ring_buffer.c` on every
-build (`tools/gen_funcs.py`): `struct ring_buffer` as the record `GenF.ring_buffer` (data fields
-only) and `cc_rbuf_enqueue`, `cc_rbuf_dequeue`, `cc_rbuf_peek`, `cc_rbuf_is_empty`, `cc_rbuf_size`
-as functions on that record, statement by statement, `size_t` arithmetic with wrap-around.
+build (`tools/gen_funcs.py`): `struct ring_buffer` and `struct ring_buffer_conf` as records with all
+their fields (the allocator triple as `Option Triple`), and **every function of the file** —
+`cc_rbuf_conf_init`, `cc_rbuf_conf_new`, `cc_rbuf_new`, `cc_rbuf_destroy`, `cc_rbuf_enqueue`,
+`cc_rbuf_dequeue`, `cc_rbuf_peek`, `cc_rbuf_is_empty`, `cc_rbuf_size` — statement by statement, `size_t`
+arithmetic with wrap-around, allocator calls as `Mem.allocT`/`Mem.freeT`, and with a **`fault` result
+that is true whenever the C execution would have had undefined behaviour** (array index outside the
+block, `% 0`, call through a NULL function pointer, dereference of a possibly-NULL object).
 
-This file proves that each translated function agrees with the hand-written model function of
-`Model/Rbuf.lean` on **every state that satisfies `Rbuf.Inv`**, every item, every ledger: same status
-(numeric code), same out-value, same resulting state (`ofRbuf` maps a model state to the generated
-record field by field, `toRbuf` back; the allocator triple is not a data field and is carried along),
-and the model's ledger is returned unchanged (its checked accesses never fault under `Inv`).  So an
-edit of the C text changes the generated definition and breaks the theorem about that function at
-build time.
+This file proves, for each translated function: on **every state that satisfies `Rbuf.Inv`** (for the
+constructors: every configuration and every ledger, refusals included) the translated function is
+**fault-free** and returns what the hand-written model function of `Model/Rbuf.lean` returns — same
+status (numeric code), same out-value, same resulting state (`ofRbuf` maps a model state to the generated
+record field by field, the three function pointers being the state's triple; `toRbuf` back), same ledger —
+and the model's ledger reports no fault either.  So an edit of the C text changes the generated definition
+and breaks the theorem about that function at build time; an edit that removes a guard and thereby lets an
+out-of-range access happen breaks `fault = false` even where the returned values would coincide.
 
-Documented precondition: `r.cap < 2 ^ 64` — the capacity is a `size_t` value.  The model computes in
-`Nat`; the translated text wraps at `2^64`; they agree because every intermediate value is at most the
-capacity.  `peek` takes an `int`: `-2^31 ≤ i < 2^31`. -/
+Documented preconditions: `r.cap < 2 ^ 64` — the capacity is a `size_t` value (the model computes in
+`Nat`, the translated text wraps at `2^64`; they agree because every intermediate value is at most the
+capacity); `GenF.cc_rbuf_peek_range i` — the index is an `int` (generated from the declared type). -/
 namespace CC.Properties.C19Gen
 open CC
 
-/-- model state ↦ generated record (`capacity` is `cap` in the model) -/
+/-- model state ↦ generated record (`capacity` is `cap` in the model; the struct's three allocator
+pointers all denote the state's triple) -/
 def ofRbuf (r : Rbuf) : GenF.ring_buffer :=
-  { size := r.size, capacity := r.cap, head := r.head, tail := r.tail, buf := r.buf }
+  { size := r.size, capacity := r.cap, head := r.head, tail := r.tail, buf := r.buf,
+    mem_alloc := some r.triple, mem_calloc := some r.triple, mem_free := some r.triple }
 
-/-- generated record ↦ model state; the allocator triple is not a data field -/
-def toRbuf (t : Triple) (g : GenF.ring_buffer) : Rbuf :=
-  { size := g.size, cap := g.capacity, head := g.head, tail := g.tail, buf := g.buf, triple := t }
+/-- generated record ↦ model state -/
+def toRbuf (g : GenF.ring_buffer) : Rbuf :=
+  { size := g.size, cap := g.capacity, head := g.head, tail := g.tail, buf := g.buf,
+    triple := g.mem_free.getD .conf }
 
-theorem toRbuf_ofRbuf (r : Rbuf) : toRbuf r.triple (ofRbuf r) = r := rfl
+theorem toRbuf_ofRbuf (r : Rbuf) : toRbuf (ofRbuf r) = r := rfl
 
-/-- `cc_rbuf_enqueue` -/
+/-- the configuration record `cc_rbuf_conf_new` is given: capacity and the caller's triple -/
+def confOf (t : Triple) (cap : Nat) : GenF.ring_buffer_conf :=
+  { capacity := cap, mem_alloc := some t, mem_calloc := some t, mem_free := some t }
+
+/-- the numeric status codes the translated text returns (re-checked against `Generated/Constants.lean`) -/
+theorem codes : Stat.ok.code = 0 ∧ Stat.errAlloc.code = 1 ∧ Stat.errOutOfRange.code = 8 := by decide
+
+/-- `cc_rbuf_enqueue`: fault-free, same state, ledger untouched -/
 theorem rbuf_enqueue_agrees (r : Rbuf) (x : Nat) (m : Mem) (h : r.Inv) (hc : r.cap < 2 ^ 64) :
-    GenF.cc_rbuf_enqueue (ofRbuf r) x = ofRbuf (r.enqueue x m).1 ∧
-    toRbuf r.triple (GenF.cc_rbuf_enqueue (ofRbuf r) x) = (r.enqueue x m).1 ∧
+    GenF.cc_rbuf_enqueue (ofRbuf r) x = (ofRbuf (r.enqueue x m).1, false) ∧
+    toRbuf (GenF.cc_rbuf_enqueue (ofRbuf r) x).1 = (r.enqueue x m).1 ∧
     (r.enqueue x m).2 = m := by
+  have hm := Rbuf.enqueue_nofault r x m h
   obtain ⟨h1, h2, h3, h4, h5⟩ := h
+  have hh : r.head < r.cap := by rw [h5]; exact Nat.mod_lt _ h1
+  have h0 : r.cap ≠ 0 := by omega
   have e1 : GenF.wadd r.tail 1 = r.tail + 1 := by unfold GenF.wadd; omega
-  have e2 : GenF.wadd r.head 1 = r.head + 1 := by
-    have : r.head < r.cap := by rw [h5]; exact Nat.mod_lt _ h1
-    unfold GenF.wadd; omega
+  have e2 : GenF.wadd r.head 1 = r.head + 1 := by unfold GenF.wadd; omega
   have e3 : r.size < r.cap → GenF.wadd r.size 1 = r.size + 1 := by intro _; unfold GenF.wadd; omega
-  refine ⟨?_, ?_, Rbuf.enqueue_nofault r x m ⟨h1, h2, h3, h4, h5⟩⟩
-  all_goals
+  have key : GenF.cc_rbuf_enqueue (ofRbuf r) x = (ofRbuf (r.enqueue x m).1, false) := by
     unfold GenF.cc_rbuf_enqueue Rbuf.enqueue ofRbuf
-    by_cases c1 : r.size = r.cap <;> by_cases c2 : r.size < r.cap <;> simp [c1, c2, toRbuf, e1, e2, e3]
+    by_cases c1 : r.size = r.cap <;> by_cases c2 : r.size < r.cap <;>
+      simp [c1, c2, e1, e2, e3, hh, h0, h2]
+  rw [key]
+  exact ⟨rfl, toRbuf_ofRbuf _, hm⟩
 
-/-- `cc_rbuf_dequeue`: status code, out-value, state -/
+/-- `cc_rbuf_dequeue`: fault-free; status code, out-value, state; ledger untouched -/
 theorem rbuf_dequeue_agrees (r : Rbuf) (m : Mem) (h : r.Inv) (hc : r.cap < 2 ^ 64) :
-    (GenF.cc_rbuf_dequeue (ofRbuf r)).1 = (r.dequeue m).1.code ∧
-    (GenF.cc_rbuf_dequeue (ofRbuf r)).2.1 = (r.dequeue m).2.1 ∧
-    (GenF.cc_rbuf_dequeue (ofRbuf r)).2.2 = ofRbuf (r.dequeue m).2.2.1 ∧
-    toRbuf r.triple (GenF.cc_rbuf_dequeue (ofRbuf r)).2.2 = (r.dequeue m).2.2.1 ∧
+    GenF.cc_rbuf_dequeue (ofRbuf r) =
+      ((r.dequeue m).1.code, (r.dequeue m).2.1, ofRbuf (r.dequeue m).2.2.1, false) ∧
+    toRbuf (GenF.cc_rbuf_dequeue (ofRbuf r)).2.2.1 = (r.dequeue m).2.2.1 ∧
     (r.dequeue m).2.2.2 = m := by
   have hm := Rbuf.dequeue_nofault r m h
   obtain ⟨h1, h2, h3, h4, h5⟩ := h
+  have h0 : r.cap ≠ 0 := by omega
   have e1 : GenF.wadd r.tail 1 = r.tail + 1 := by unfold GenF.wadd; omega
-  refine ⟨?_, ?_, ?_, ?_, hm⟩
-  all_goals
+  have key : GenF.cc_rbuf_dequeue (ofRbuf r) =
+      ((r.dequeue m).1.code, (r.dequeue m).2.1, ofRbuf (r.dequeue m).2.2.1, false) := by
     unfold GenF.cc_rbuf_dequeue Rbuf.dequeue ofRbuf
     by_cases c : r.size = 0
-    · simp [c, toRbuf, GenF.cc_rbuf_is_empty] <;> first | decide | (cases r; simp_all)
+    · simp [c, GenF.cc_rbuf_is_empty, codes]
     · have e2 : GenF.wsub r.size 1 = r.size - 1 := by unfold GenF.wsub; simp; omega
-      simp [c, e1, e2, toRbuf, GenF.cc_rbuf_is_empty] <;> decide
+      simp [c, e1, e2, h4, h0, h2, GenF.cc_rbuf_is_empty, codes]
+  rw [key]
+  exact ⟨rfl, toRbuf_ofRbuf _, hm⟩
 
-/-- `cc_rbuf_peek(rbuf, int index)` -/
-theorem rbuf_peek_agrees (r : Rbuf) (i : Int) (m : Mem) (h : r.Inv) (hi : -2 ^ 31 ≤ i ∧ i < 2 ^ 31) :
-    GenF.cc_rbuf_peek (ofRbuf r) i = (r.peek i m).1 ∧ (r.peek i m).2 = m := by
+/-- `cc_rbuf_peek(rbuf, int index)`: fault-free for every `int` -/
+theorem rbuf_peek_agrees (r : Rbuf) (i : Int) (m : Mem) (h : r.Inv) (hi : GenF.cc_rbuf_peek_range i) :
+    GenF.cc_rbuf_peek (ofRbuf r) i = ((r.peek i m).1, false) ∧ (r.peek i m).2 = m := by
   obtain ⟨h1, h2, h3, h4, h5⟩ := h
+  unfold GenF.cc_rbuf_peek_range at hi
   unfold GenF.cc_rbuf_peek Rbuf.peek ofRbuf GenF.castSizeT
   by_cases c : i < 0
   · simp [c]
   · have e : (i % 18446744073709551616).toNat = i.toNat := by
       have : i % 18446744073709551616 = i := Int.emod_eq_of_lt (by omega) (by omega)
       rw [this]
+    have c' : 0 ≤ i := by omega
     by_cases c2 : r.cap ≤ i.toNat
     · simp [c, e, c2]
     · have : i.toNat < r.buf.length := by omega
-      simp [c, e, c2, this]
+      simp [c, c', e, c2, this]
 
 /-- `cc_rbuf_is_empty` (every state) -/
 theorem rbuf_is_empty_agrees (r : Rbuf) : GenF.cc_rbuf_is_empty (ofRbuf r) = r.isEmpty := rfl
@@ -86,12 +108,51 @@ theorem rbuf_is_empty_agrees (r : Rbuf) : GenF.cc_rbuf_is_empty (ofRbuf r) = r.i
 /-- `cc_rbuf_size` (every state): the model has no function for it, the harness reads the field -/
 theorem rbuf_size_agrees (r : Rbuf) : GenF.cc_rbuf_size (ofRbuf r) = r.size := rfl
 
+/-- `cc_rbuf_conf_new`, for every triple, capacity and ledger (refusal of the first or the second
+allocation included): status code, the constructed object, the ledger; fault-free -/
+theorem rbuf_conf_new_agrees (t : Triple) (cap : Nat) (m : Mem) :
+    GenF.cc_rbuf_conf_new (confOf t cap) m =
+      ((Rbuf.newT t cap m).1.code, (Rbuf.newT t cap m).2.1.map ofRbuf, (Rbuf.newT t cap m).2.2, false) := by
+  unfold GenF.cc_rbuf_conf_new Rbuf.newT confOf
+  by_cases a1 : (m.allocT t).1 = true
+  · by_cases a2 : ((m.allocT t).2.allocT t).1 = true
+    · simp [a1, a2, ofRbuf, codes]
+    · simp [a1, a2, codes]
+  · simp [a1, codes]
+
+/-- `cc_rbuf_conf_init`: whatever the record contained, it now holds the default capacity of the header
+and the C library's triple -/
+theorem rbuf_conf_init_agrees (u : GenF.ring_buffer_conf) :
+    GenF.cc_rbuf_conf_init u = confOf .libc Gen.DEFAULT_CC_RBUF_CAPACITY := by
+  unfold GenF.cc_rbuf_conf_init confOf
+  simp <;> decide
+
+/-- `cc_rbuf_new`: whatever the uninitialised local configuration contained, it is `cc_rbuf_conf_new` with
+the header's default capacity on the C library's triple -/
+theorem rbuf_new_agrees (u : GenF.ring_buffer_conf) (m : Mem) :
+    GenF.cc_rbuf_new u m =
+      ((Rbuf.newT .libc Gen.DEFAULT_CC_RBUF_CAPACITY m).1.code,
+       (Rbuf.newT .libc Gen.DEFAULT_CC_RBUF_CAPACITY m).2.1.map ofRbuf,
+       (Rbuf.newT .libc Gen.DEFAULT_CC_RBUF_CAPACITY m).2.2, false) := by
+  unfold GenF.cc_rbuf_new
+  simp only [rbuf_conf_init_agrees, rbuf_conf_new_agrees]
+  simp
+
+/-- `cc_rbuf_destroy`: both blocks go back through the buffer's own release pointer; fault-free -/
+theorem rbuf_destroy_agrees (r : Rbuf) (m : Mem) :
+    GenF.cc_rbuf_destroy (ofRbuf r) m = (r.destroy m, false) := by
+  unfold GenF.cc_rbuf_destroy Rbuf.destroy ofRbuf
+  simp
+
 /-- the hypotheses are satisfiable by a non-trivial state: a full buffer of capacity 3 whose head has
-wrapped; the translated `enqueue` overwrites the oldest item and advances both cursors -/
+wrapped; the translated `enqueue` overwrites the oldest item, advances both cursors and does not fault; on a
+state that violates the invariant (a block shorter than the capacity) the same text *does* fault -/
 example :
     let r : Rbuf := { size := 3, cap := 3, head := 1, tail := 1, buf := [7, 8, 9] }
     r.Inv ∧ r.cap < 2 ^ 64 ∧
-    (GenF.cc_rbuf_enqueue (ofRbuf r) 5).buf = [7, 5, 9] ∧ (GenF.cc_rbuf_enqueue (ofRbuf r) 5).tail = 2 ∧
-    (GenF.cc_rbuf_dequeue (ofRbuf r)).1 = 0 ∧ (GenF.cc_rbuf_dequeue (ofRbuf r)).2.1 = some 8 := by decide
+    (GenF.cc_rbuf_enqueue (ofRbuf r) 5).1.buf = [7, 5, 9] ∧ (GenF.cc_rbuf_enqueue (ofRbuf r) 5).1.tail = 2 ∧
+    (GenF.cc_rbuf_enqueue (ofRbuf r) 5).2 = false ∧
+    (GenF.cc_rbuf_dequeue (ofRbuf r)).1 = 0 ∧ (GenF.cc_rbuf_dequeue (ofRbuf r)).2.1 = some 8 ∧
+    (GenF.cc_rbuf_peek (ofRbuf { r with buf := [7] }) 2).2 = true := by decide
 
 end CC.Properties.C19Gen
